@@ -199,7 +199,11 @@ def is_f1(sc, seg, ln):
     for s, r in (('a', 'b'), ('b', 'a')):
         if ev.get(s, {}).get('sndwnd') != 0 or ev.get(s, {}).get('state') != 4:
             continue
-        if any(e['ev'] == 'emit' and e.get('e') == r and e.get('wnd') == 0 and 'S' not in e.get('flags', '') for e in seg[:ln]):
+        acks = [e for e in seg[:ln] if e['ev'] == 'emit' and e.get('e') == r and 'A' in e.get('flags', '') and 'S' not in e.get('flags', '') and 'R' not in e.get('flags', '')]
+        # the receiver closed its window at some point AND has re-opened it since (its latest advertisement is non-zero): the
+        # update exists, the sender never learnt of it.  A receiver that still advertises zero after its application drained
+        # the buffer is a different defect and is not matched.
+        if any(e.get('wnd') == 0 for e in acks) and acks and acks[-1].get('wnd', 0) > 0:
             return True
     return False
 
